@@ -98,13 +98,20 @@ def run_pairs(ctx, res, protocol, diskcls, pairs_budget, coqcases, stats):
         cache.clear()
         case = {'check': 'pair', 'disk': diskname, 'protocol': protocol, 'a': short(a), 'b': short(b),
                 'a_pickle_hex': pickle.dumps(a, protocol=4).hex(), 'b_pickle_hex': pickle.dumps(b, protocol=4).hex()}
-        cache.set(a, 'A')
-        cache.set(b, 'B')
         exp = expected_same(a, b)
-        n = len(cache)
-        ga, gb = cache.get(a), cache.get(b)
-        it = list(cache)
-        ik = list(cache.iterkeys())
+        try:
+            cache.set(a, 'A')
+            cache.set(b, 'B')
+            n = len(cache)
+            ga, gb = cache.get(a), cache.get(b)
+            it = list(cache)
+            ik = list(cache.iterkeys())
+        except Exception as e:  # an ordinary operation on in-domain keys must not raise
+            stats['pairs'] += 1
+            res.count(['pair', diskname, protocol, short(a), short(b)], nontrivial=True)
+            res.violations.append(fw.Violation('op_raised:%s' % type(e).__name__,
+                                               'storing/iterating keys %s and %s raised %r' % (short(a), short(b), e), case))
+            continue
         stats['pairs'] += 1
         stats['same'] += int(exp)
         res.count(['pair', diskname, protocol, short(a), short(b)], nontrivial=(a is not b))
